@@ -5,7 +5,7 @@ from ..ref import P, L, to32, le
 
 REQUIRED = ['dec:torsion-enc', 'dec:noncanon-y', 'dec:reject', 'dec:accept', 'dec:x0-signbit', 'rel:Q=P', 'rel:Q=-P',
             'rel:Q=P+T', 'rel:indep', 'history', 'pred:identity', 'pred:small', 'pred:mixed', 'pred:prime', 'eq:scaled',
-            'roundtrip', 'sum-empty', 'cond', 'history:scalarmul']
+            'roundtrip', 'sum-empty', 'cond', 'history:scalarmul', 'history:groupview']
 
 
 class Reg:
@@ -75,7 +75,7 @@ def step(ctx, regs, op=None):
     rng = ctx.rng
     op = op or rng.choice(['add', 'add', 'sub', 'neg', 'dbl', 'mulcof', 'sum', 'eq', 'preds', 'roundtrip', 'csel',
                            'addassign', 'subassign', 'pow2', 'valid', 'cassign', 'cswap', 'cneg',
-                           'mul', 'mulbase', 'dsm', 'msm'])
+                           'mul', 'mulbase', 'dsm', 'msm', 'groupview'])
     p = rng.choice(regs)
     q = rng.choice(regs)
     if op in ('add', 'addassign'):
@@ -145,6 +145,15 @@ def step(ctx, regs, op=None):
         aff = ref.aff_neg(p.aff) if ch else p.aff
         rid = ctx.add('ed.cneg', p.tok, B(ch), expect=pts.expect_ed(aff), cls=['history', 'cond'])
         regs.append(Reg(ctx.ref(rid, 1), aff, (-p.a) % L if ch else p.a, (-p.j) % 8 if ch else p.j))
+    elif op == 'groupview':
+        # the group-crate traits on the register's current representation (predicates must not depend on Z)
+        k = rng.choice([0, 1, L - 1, rng.randrange(L)])
+        E = lambda a, j: ref.ed_compress(vals.Pt(a, j).affine()).hex()
+        idt = ref.ed_compress(ref.IDENT).hex()
+        ctx.add('gp.ed_ops', p.tok, q.tok, sc(k),
+                expect=[E(2 * p.a, 2 * p.j), E(-p.a, -p.j), E(p.a + q.a, p.j + q.j), E(p.a - q.a, p.j - q.j), E(k * p.a, k * p.j),
+                        E(p.a + q.a, p.j + q.j), B(p.a == 0 and p.j == 0), idt, ref.ed_compress(ref.B).hex()],
+                cls=['history', 'history:groupview'])
     # results of the scalar-multiplication routines are points like any other: they re-enter the history, so an
     # inconsistent internal representation (a wrong T, a Z of zero) shows in whatever is computed from them next
     elif op == 'mul':
